@@ -46,11 +46,32 @@ def strip_comments(src):
     return "".join(out)
 
 
-def audit_sources():
-    """Grep the whole development for anything that would declare an axiom or switch off a kernel check.
-    Returns the list of offending 'file:line: text'."""
+def dep_closure(start_files):
+    """Transitive closure of `From LCC Require ...` / `Require Import LCC....` dependencies inside theories/."""
+    seen, todo = set(), list(start_files)
+    while todo:
+        f = todo.pop()
+        if f in seen or not os.path.exists(f):
+            continue
+        seen.add(f)
+        src = strip_comments(open(f, encoding="utf-8").read())
+        for m in re.finditer(r"From\s+LCC\s+Require\s+(?:Import\s+|Export\s+)?(.*?)\.(?:\s|$)", src, re.S):
+            for mod in m.group(1).split():
+                todo.append(os.path.join(TH, *mod.split(".")) + ".v")
+        for m in re.finditer(r"\bLCC\.([A-Za-z_]\w*(?:\.[A-Za-z_]\w*)*)", src):
+            todo.append(os.path.join(TH, *m.group(1).split(".")) + ".v")
+    return sorted(seen)
+
+
+def audit_sources(prop=None):
+    """Grep the development (the dependency closure of Props/<prop>.v, or everything) for anything that would declare
+    an axiom or switch off a kernel check. Returns the list of offending 'file:line: text'."""
     bad = []
-    for path in sorted(glob.glob(os.path.join(TH, "**", "*.v"), recursive=True)):
+    if prop:
+        files = dep_closure([os.path.join(TH, "Props", prop + ".v")])
+    else:
+        files = sorted(glob.glob(os.path.join(TH, "**", "*.v"), recursive=True))
+    for path in files:
         if os.sep + "Cases" + os.sep in path:
             continue
         src = strip_comments(open(path, encoding="utf-8").read())
@@ -250,6 +271,14 @@ class Run:
         prop = self.prop
         props_rel = os.path.join("theories", "Props", prop + ".vo")
         t = time.time()
+        self.model_ok = False
+        try:
+            import tables
+            with BuildLock():
+                self.generated = [os.path.relpath(f, ROOT) for f in tables.regenerate(prop)]
+        except Exception as e:   # fail-closed translator: an unrecognised source shape is a broken tie
+            self.broken.append({"kind": "translator", "what": "table regeneration from %s failed: %s: %s" % (REPO, type(e).__name__, e)})
+            self.generated = []
         rc, out = make([props_rel] + list(extra_targets))
         self.obligations = theorem_names(os.path.join(TH, "Props", prop + ".v"))
         self.examples = example_names(os.path.join(TH, "Props", prop + ".v"))
@@ -257,8 +286,8 @@ class Run:
             ff = failed_files(out)
             self.broken.append({"kind": "proof", "what": "make %s failed" % props_rel, "failed": ff,
                                 "log_tail": out[-3000:]})
-            self.model_ok = not any(f["file"].startswith(("theories/Model", "theories/Base", "theories/gen")) for f in ff) and \
-                self._model_built()
+            self.model_ok = all(os.path.exists(os.path.join(COQ, t)) for t in extra_targets) and \
+                not any(f["file"].startswith(("theories/Model", "theories/Base", "theories/gen")) for f in ff)
             self.notes.append("coq build failed in %.1fs" % (time.time() - t))
             return False
         ok, names, assumptions, raw = check_props_file(prop, self.scratch)
@@ -271,7 +300,8 @@ class Run:
         missing = [n for n in names if n not in assumptions]
         if missing:
             self.broken.append({"kind": "proof", "what": "no Print Assumptions output for %s" % missing})
-        bad = audit_sources()
+        bad = audit_sources(prop)
+        self.audited_files = [os.path.relpath(f, ROOT) for f in dep_closure([os.path.join(TH, 'Props', prop + '.v')])]
         if bad:
             self.broken.append({"kind": "audit", "what": "forbidden declarations", "lines": bad[:20]})
         self.model_ok = True
@@ -375,6 +405,7 @@ class Run:
             "correspondence_mismatches": len([b for b in self.broken if b["kind"] == "correspondence"]),
             "known_findings_reproduced": [h["signature"] for h in listed],
             "notes": self.notes,
+            "coq_files_audited": getattr(self, "audited_files", []),
         }
         cov.update(self.coverage)
         if coverage_extra:
@@ -394,10 +425,13 @@ class Run:
 
 
 def load_findings():
-    p = os.path.join(ROOT, "known_findings.json")
-    if os.path.exists(p):
-        return json.load(open(p))
-    return {"findings": [], "fixed": []}
+    res = {"findings": [], "fixed": []}
+    for p in [os.path.join(ROOT, "known_findings.json")] + sorted(glob.glob(os.path.join(ROOT, "known_findings.d", "*.json"))):
+        if os.path.exists(p):
+            d = json.load(open(p))
+            res["findings"] += d.get("findings", [])
+            res["fixed"] += d.get("fixed", [])
+    return res
 
 
 def run_impl(script, payload, timeout=600):
